@@ -6,6 +6,8 @@ import (
 	"regexp"
 	"sort"
 	"strings"
+	"sync"
+	"sync/atomic"
 
 	restful "github.com/emicklei/go-restful/v3"
 )
@@ -106,6 +108,7 @@ func init() {
 		}
 	}
 }
+
 var sufPool = []string{".foo", "_x", ".json"}
 var verbPool = []string{":get", ":cancel", ":x", ":ab"}
 
@@ -633,11 +636,12 @@ func genRoute_(r *Rng) Sx {
 
 // ---------- building the real container ----------
 type probe struct {
-	invoked  []int
-	params   map[string]string
-	selPath  string
-	selFPath string // selected route path seen by the route filter
-	selFSeen bool
+	viaHeader bool // concurrent clients: nothing is recorded here, the route function reports in a response header
+	invoked   []int
+	params    map[string]string
+	selPath   string
+	selFPath  string // selected route path seen by the route filter
+	selFSeen  bool
 }
 
 // validTemplate tells whether go-restful can compile the template (it calls
@@ -707,10 +711,26 @@ func buildContainer(t TableSpec, pr *probe) (c *restful.Container, kept TableSpe
 				b.ContentEncodingEnabled(rs.Enc[0])
 			}
 			b.Filter(func(rq *restful.Request, rp *restful.Response, ch *restful.FilterChain) {
-				pr.selFPath, pr.selFSeen = rq.SelectedRoutePath(), true
+				if !pr.viaHeader {
+					pr.selFPath, pr.selFSeen = rq.SelectedRoutePath(), true
+				}
 				ch.ProcessFilter(rq, rp)
 			})
 			b.To(func(rq *restful.Request, rp *restful.Response) {
+				if pr.viaHeader {
+					ks := []string{}
+					for k := range rq.PathParameters() {
+						ks = append(ks, k)
+					}
+					sort.Strings(ks)
+					ps := []string{}
+					for _, k := range ks {
+						ps = append(ps, k+"="+rq.PathParameter(k))
+					}
+					rp.AddHeader("X-Obs", itoa(rs.ID)+"|"+rq.SelectedRoutePath()+"|"+strings.Join(ps, ";"))
+					rp.WriteHeader(200)
+					return
+				}
 				pr.invoked = append(pr.invoked, rs.ID)
 				pr.params = map[string]string{}
 				for k, v := range rq.PathParameters() {
@@ -914,7 +934,42 @@ func genSlash(r *Rng) Sx {
 	if strings.Trim(q.Path, "/") == "" {
 		q.Path = "/" + r.Pick(litPool)
 	}
+	if r.Pct(15) {
+		// the path of a WebService root itself (a literal one): what the mux knows about it decides through ServeHTTP
+		t := tableFromSx(sxNth(raw, 0))
+		roots := []string{}
+		for _, sv := range t.Services {
+			if rt := strings.TrimRight(sv.Root, "/"); rt != "" && !strings.ContainsAny(rt, "{:") {
+				roots = append(roots, rt)
+			}
+		}
+		if len(roots) > 0 {
+			q.Path = r.Pick(roots)
+		}
+	}
+	if r.Pct(20) {
+		// the OPTIONS filter installed and asked: the Allow list it computes for p and for p/ must be the same
+		q.Method = "OPTIONS"
+		return L(sxNth(raw, 0), q.Sx(), 1)
+	}
 	return L(sxNth(raw, 0), q.Sx())
+}
+
+// the Allow header as the set of names separated by commas (the OPTIONS filter joins without a blank)
+func allowNames(obs Sx, h http.Header) Sx {
+	seen := map[string]bool{}
+	names := []string{}
+	for _, p := range strings.Split(h.Get("Allow"), ",") {
+		p = strings.TrimSpace(p)
+		if p != "" && !seen[p] {
+			seen[p] = true
+			names = append(names, p)
+		}
+	}
+	sort.Strings(names)
+	l := append(Ls{}, sxList(obs)...)
+	l[2] = Strs(names)
+	return l
 }
 
 func runSlash(raw Sx) (Sx, Sx) {
@@ -924,6 +979,22 @@ func runSlash(raw Sx) (Sx, Sx) {
 	q2.Path = q.Path + "/"
 	pr := &probe{}
 	c, kept, _ := buildContainer(t, pr)
+	if len(sxList(raw)) > 2 && sxBool(sxNth(raw, 2)) {
+		c.Filter(c.OPTIONSFilter)
+		ask := func(via func(http.ResponseWriter, *http.Request), qq *Req) Sx {
+			*pr = probe{}
+			rec := httptest.NewRecorder()
+			via(rec, qq.HTTP())
+			class := 1
+			if len(pr.invoked) > 0 {
+				class = 0
+			}
+			return allowNames(L(class, rec.Code, Ls{}, Ls{}, Ls{}, A(""), 1), rec.Header())
+		}
+		o := NewOracles()
+		tabulateRouting(o, kept, q.Path)
+		return L(o.Sx(), kept.Sx(), q.Sx(), 1), L(ask(c.Dispatch, q), ask(c.Dispatch, q2), ask(c.ServeHTTP, q), ask(c.ServeHTTP, q2))
+	}
 	obs1 := dispatchObs(c, pr, q)
 	*pr = probe{}
 	obs2 := dispatchObs(c, pr, q2)
@@ -949,7 +1020,17 @@ func genTwin(r *Rng) Sx {
 		}
 	}
 	q := genSimpleRequest(r, routes)
+	if r.Pct(6) || forceConc {
+		// several clients at once, under either router: each must get the answer a lone client gets; a second request
+		// (to another route) keeps other selections in flight
+		return L(t.Sx(), q.Sx(), L(2+r.Intn(7), genSimpleRequest(r, routes).Sx()))
+	}
 	return L(t.Sx(), q.Sx())
+}
+
+// what a client sees of one answer when the route function reports through the X-Obs header
+func headerObs(rec *httptest.ResponseRecorder, panicked bool) string {
+	return SxString(L(B(panicked), rec.Code, allowSet(rec.Header()), A(rec.Header().Get("X-Obs"))))
 }
 
 func runTwin(raw Sx) (Sx, Sx) {
@@ -967,6 +1048,51 @@ func runTwin(raw Sx) (Sx, Sx) {
 	kept.Router = 0
 	o := NewOracles()
 	tabulateRouting(o, kept, q.Path)
+	if len(sxList(raw)) > 2 {
+		conc := sxNth(raw, 2)
+		workers, q2 := sxInt(sxNth(conc, 0)), sxReq(sxNth(conc, 1))
+		same := 1
+		ask := func(c *restful.Container, qq *Req) string {
+			rec := httptest.NewRecorder()
+			panicked := false
+			func() {
+				defer func() {
+					if recover() != nil {
+						panicked = true
+					}
+				}()
+				c.Dispatch(rec, qq.HTTP())
+			}()
+			return headerObs(rec, panicked)
+		}
+		for router := 0; router < 2; router++ {
+			t.Router = router
+			c, _, _ := buildContainer(t, &probe{viaHeader: true})
+			alone, alone2 := ask(c, q), ask(c, q2)
+			var wg sync.WaitGroup
+			var bad int32
+			for w := 0; w < workers; w++ {
+				wg.Add(1)
+				go func(w int) {
+					defer wg.Done()
+					for k := 0; k < 12; k++ {
+						if (w+k)%2 == 0 {
+							if ask(c, q) != alone {
+								atomic.StoreInt32(&bad, 1)
+							}
+						} else if ask(c, q2) != alone2 {
+							atomic.StoreInt32(&bad, 1)
+						}
+					}
+				}(w)
+			}
+			wg.Wait()
+			if bad != 0 {
+				same = 0
+			}
+		}
+		return L(o.Sx(), kept.Sx(), q.Sx(), conc), append(obs, same)
+	}
 	return L(o.Sx(), kept.Sx(), q.Sx()), obs
 }
 
